@@ -88,6 +88,10 @@ func runEngine(rep *Report) {
 		if *fTier == "thorough" {
 			p.Txs = 30
 		}
+		if i%5 == 4 && cfg.MaxPages > 0 {
+			// full bounded files with the overflow area in use (meta pages beyond the limit), reopened often
+			p.Overflow, p.Reopen, p.KeepFill, p.BigAlloc = 50, 30, 95, 30
+		}
 		s := engine.RunProgram(r, cfg, p)
 		s.Finish()
 		collect(rep, s, i, ps, tw, len(rep.Failures) < 5)
